@@ -655,7 +655,7 @@ func (c *Ctx) FetchHelperRules(prop string, s *Slashing, kind string) *ssa.Globa
 			if fs.Fn != fn {
 				continue
 			}
-			if (fs.Val == nil || !an.IsConstInt(fs.Val, -1)) {
+			if fs.Val == nil || !an.IsConstInt(fs.Val, -1) {
 				c.R.Fail(rule4, Fn(fn)+":"+fs.Field, c.Pos(fs.Store), "the fetch helper writes something other than -1 into the state: "+termOrZero(fs.Val), "only the 'none' marker -1, below the not-found edge", nil)
 				continue
 			}
@@ -1055,7 +1055,7 @@ func (c *Ctx) fetchHelperTwoLevel(prop string, s *Slashing, kind string, state *
 		if fsr.Fn != H {
 			continue
 		}
-		if (fsr.Val == nil || !an.IsConstInt(fsr.Val, -1)) {
+		if fsr.Val == nil || !an.IsConstInt(fsr.Val, -1) {
 			c.R.Fail(rule4, Fn(H)+":"+fsr.Field, c.Pos(fsr.Store), "the fetch helper writes something other than -1 into the state: "+termOrZero(fsr.Val), "only the 'none' marker -1, below [found == false]", nil)
 			continue
 		}
